@@ -21,18 +21,21 @@ const (
 func (r SatResult) String() string { return [...]string{"unsat", "sat", "unknown"}[r] }
 
 type Solver struct {
-	name    string
-	cmd     *exec.Cmd
-	in      io.WriteCloser
-	out     *bufio.Reader
-	sent    map[string]bool
-	level   int
-	Queries int
-	Time    time.Duration
-	seq     int
-	log     io.Writer
-	Errors  []string
-	timeout int
+	name     string
+	cmd      *exec.Cmd
+	in       io.WriteCloser
+	out      *bufio.Reader
+	sent     map[string]bool
+	level    int
+	Queries  int
+	Time     time.Duration
+	seq      int
+	log      io.Writer
+	Errors   []string
+	timeout  int
+	lines    chan string
+	Dead     bool
+	Timeouts int
 }
 
 func NewSolver(kind string, timeoutMs int) (*Solver, error) {
@@ -60,7 +63,17 @@ func NewSolver(kind string, timeoutMs int) (*Solver, error) {
 	if err := cmd.Start(); err != nil {
 		return nil, err
 	}
-	s := &Solver{name: kind, cmd: cmd, in: in, out: bufio.NewReaderSize(outp, 1<<20), sent: map[string]bool{}, timeout: timeoutMs}
+	s := &Solver{name: kind, cmd: cmd, in: in, out: bufio.NewReaderSize(outp, 1<<20), sent: map[string]bool{}, timeout: timeoutMs, lines: make(chan string, 1024)}
+	go func() {
+		for {
+			line, err := s.out.ReadString('\n')
+			if err != nil {
+				close(s.lines)
+				return
+			}
+			s.lines <- line
+		}
+	}()
 	if f := os.Getenv("GOSX_SMTLOG"); f != "" {
 		w, _ := os.OpenFile(fmt.Sprintf("%s.%d", f, cmd.Process.Pid), os.O_CREATE|os.O_WRONLY|os.O_TRUNC, 0644)
 		s.log = w
@@ -91,24 +104,39 @@ func (s *Solver) raw(text string) {
 	io.WriteString(s.in, text)
 }
 
-// sync sends an echo marker and returns all output lines before it.
+// sync sends an echo marker and returns all output lines before it.  A solver
+// that does not answer within its own timeout plus a grace period is killed
+// (z3's :timeout is not honoured inside some theory combinations); the
+// solver is then Dead and every later answer is Unknown.
 func (s *Solver) sync() []string {
+	if s.Dead {
+		return []string{"unknown"}
+	}
 	s.seq++
 	marker := fmt.Sprintf("<<sync %d>>", s.seq)
 	s.raw("(echo \"" + marker + "\")\n")
 	var lines []string
+	deadline := time.After(time.Duration(s.timeout)*time.Millisecond + 3*time.Second)
 	for {
-		line, err := s.out.ReadString('\n')
-		if err != nil {
-			s.Errors = append(s.Errors, "solver died: "+err.Error())
-			return lines
-		}
-		line = strings.TrimRight(line, "\r\n")
-		if strings.Contains(line, marker) {
-			return lines
-		}
-		if line != "" {
-			lines = append(lines, line)
+		select {
+		case line, ok := <-s.lines:
+			if !ok {
+				s.Errors = append(s.Errors, "solver died")
+				s.Dead = true
+				return append(lines, "unknown")
+			}
+			line = strings.TrimRight(line, "\r\n")
+			if strings.Contains(line, marker) {
+				return lines
+			}
+			if line != "" {
+				lines = append(lines, line)
+			}
+		case <-deadline:
+			s.Dead = true
+			s.cmd.Process.Kill()
+			s.Timeouts++
+			return []string{"unknown"}
 		}
 	}
 }
